@@ -43,7 +43,7 @@ ASSUMPTIONS = ["LP64: char 8, short 16, int 32, long/long long 64 bits (theorems
 NEG_CHECKED = os.environ.get("C04_NEG_CHECKED", "1") == "1"   # (env override: trying the fix in a worktree)
 
 # set to "1" once proposed_fixes/C04-extern_typedef_narrower_than_int_unchecked.diff is applied to the tree
-NARROW_FIXED = os.environ.get("C04_NARROW_FIXED", "0") == "1"
+NARROW_FIXED = os.environ.get("C04_NARROW_FIXED", "1") == "1"
 
 # (ctype, name, width, signed)
 TYPES = [("signed char", "schar", 8, True), ("short", "short", 16, True), ("int", "int", 32, True),
@@ -843,8 +843,8 @@ def run_td(ctx, model, plan, cfiles, variants, quick, spur):
 #  - under a node that closes the fold scope of ConsolidateOverflowCheck (conditional expression,
 #    widening cast, unary minus, comparison, abs()): the inner check must still be tested
 # set to "1" once the corresponding proposed_fixes/C04-*.diff is applied to the tree
-NOGIL_FIXED = os.environ.get("C04_NOGIL_FIXED", "0") == "1"
-ABS_FIXED = os.environ.get("C04_ABS_FIXED", "0") == "1"
+NOGIL_FIXED = os.environ.get("C04_NOGIL_FIXED", "1") == "1"
+ABS_FIXED = os.environ.get("C04_ABS_FIXED", "1") == "1"
 NOGIL_CLASS = "overflow_raised_in_nogil_context_crashes"
 ABS_CLASS = "abs_of_temporary_argument_invalid_c"
 I32, I64, U64 = (32, True), (64, True), (64, False)
